@@ -997,6 +997,20 @@ func c15(c *Ctx) {
 		}
 		c15path(c, false, f, 3, "path")
 	}
+	{
+		rp := r.Fork()
+		np := 400
+		if c.Thorough {
+			np = 20000
+		}
+		for k := 0; k < np; k++ {
+			f := string(rp.Bytes(rp.Intn(14), []byte("//ab.:")))
+			if rp.Chance(30) {
+				f = "/home/u/src/" + f
+			}
+			c15path(c, !rp.Chance(5), f, rp.Range(-3, 5000), "path-rand")
+		}
+	}
 	// 7. random: conversion chains x front ends x wrappers x depths x thresholds
 	N := 2600
 	if c.Thorough {
